@@ -57,7 +57,7 @@ def check(ctx, replay=None):
                      name="ConcGen", workers=1, timeout=600))
     for r in ctx.tlc_many(jobs, parallel=4):
         if r["violated"]:
-            ctx.note("TLC: %s violated in %s (model level)" % (r["violated"], r["name"]))
+            raise vlib.Machinery("TLC: %s violated in %s: the specification of the unchanged design does not satisfy its own invariant" % (r["violated"], r["name"]))
     hists = json.load(open(hfile))
 
     def viol(msg, what):
